@@ -921,6 +921,10 @@ class Ctx:
                         return a
                     raise PyRaise(AttributeError, name)
                 return guard_state(a)
+        if name in ("__name__", "__qualname__", "__module__", "__doc__", "__mro__", "__bases__", "__dict__"):
+            src = cls if inst is None else None
+            if src is not None:
+                return getattr(src, name)          # attributes every class has from `type`
         raise PyRaise(AttributeError, name)
 
     def setattr(self, v, name, val):
@@ -1317,7 +1321,10 @@ class Frame:
 
     def s_Raise(self, s):
         if s.exc is None:
-            raise Undecided("bare raise")
+            cur = getattr(self, "_handling", None)
+            if cur:
+                raise PyRaise(cur[-1].exc_cls)          # bare `raise` inside an except block: the exception being handled
+            raise Undecided("bare raise outside an except block")
         if isinstance(s.exc, ast.Call):
             # the message text is dropped by the extraction (assumed not to raise)
             cls = self.ev(s.exc.func)
@@ -1348,7 +1355,11 @@ class Frame:
                 if match:
                     if h.name:
                         self.env[h.name] = ModelObj("exception", cls=e.exc_cls, args=())
-                    self.exec_block(h.body)
+                    self._handling = getattr(self, "_handling", []) + [e]
+                    try:
+                        self.exec_block(h.body)
+                    finally:
+                        self._handling = self._handling[:-1]
                     return
             raise
         else:
